@@ -705,13 +705,9 @@ func (w *c10Cache) summary() string {
 	w.ctrl.drainEvictorSpill()
 	ok, n := w.mirror()
 	if !ok {
-		if w.stale {
-			w.stats.Inc("c.mirror_broken_after_stale_refresh")
-		} else {
-			w.stats.Inc("c.mirror_broken_without_stale_refresh")
-		}
+		w.stats.Inc("c.mirror_broken")
 	}
-	return fmt.Sprintf("%s n=%d p=%d k=%d m=%s s=%s", w.obs.takeCalls(), n, len(w.ctrl.bpfUpdateCh), len(w.obs.shadow), c10B(ok), c10B(w.stale))
+	return fmt.Sprintf("%s n=%d p=%d k=%d m=%s", w.obs.takeCalls(), n, len(w.ctrl.bpfUpdateCh), len(w.obs.shadow), c10B(ok))
 }
 
 func (w *c10Cache) dump() string {
@@ -891,9 +887,9 @@ func (h *c10Hist) work() {
 			}
 			if !fresh {
 				w.stale = true
-				h.stats.Inc("c.stale_refresh_applied")
+				h.stats.Inc("c.refresh_task_for_replaced_or_removed_entry")
 			} else {
-				h.stats.Inc("c.fresh_refresh_applied")
+				h.stats.Inc("c.refresh_task_for_current_entry")
 			}
 			w.ctrl.processBpfUpdateTask(task, false)
 		default:
@@ -1051,7 +1047,7 @@ func c10RunCacheHistory(st *VStream, r *VRand, obs *c10Observer, stats *VStats, 
 	}
 	h.dump()
 	if w.stale {
-		stats.Inc("c.histories_with_stale_refresh")
+		stats.Inc("c.histories_with_refresh_task_for_replaced_or_removed_entry")
 	}
 	// leave nothing behind in the bubble
 	for len(w.ctrl.bpfUpdateCh) > 0 {
